@@ -619,7 +619,8 @@ func (cb *chunkBuilder) add(cols map[string]*btapb.ColumnFamily, r *btpb.Row) bo
 	if len(cb.chunks) > 0 {
 		cb.chunks[len(cb.chunks)-1].RowStatus = &btpb.ReadRowsResponse_CellChunk_CommitRow{CommitRow: true}
 	}
-	return true
+	// The row produced output iff one of its cells carried the row key.
+	return !newRow
 }
 
 // filterRow modifies a row with the given filter. Returns true if at least one cell from the row matches,
